@@ -60,6 +60,13 @@ T_GRAPH = (
     "streamflow.core.utils.contains_persistent_id",
 )
 T_STEPS = T_GRAPH + ("streamflow.recovery.utils.GraphMapper.get_step_ids",)
+T_MERGE = (
+    "streamflow.recovery.utils.GraphMapper.replace_token",
+    "streamflow.recovery.utils.GraphMapper.move_token_to_root",
+    "streamflow.recovery.utils.DirectedAcyclicGraph.promote_to_source",
+    "streamflow.recovery.utils.DirectedGraph.remove_nodes",
+    "streamflow.recovery.utils.DirectedGraph.replace",
+)
 
 TOKEN_T = "streamflow.core.workflow.Token"
 JOBTOKEN_T = "streamflow.workflow.token.JobToken"
@@ -603,6 +610,265 @@ def prop_steps(name: str, data_avail) -> bool:
         return True
 
 
+# ---------------------------------------------------------------- TWINS: equal tokens of earlier recoveries
+
+# After an earlier recovery a port holds two "equal" tokens (same port and tag; same job name for job tokens):
+# the one of the first execution and the one produced by the rollback. GraphMapper merges them and prefers an
+# available one, which becomes a root (GraphMapper._update_token -> replace_token -> move_token_to_root).
+# token: (port, kind 'T'/'J', job name or None, dependees); ids are positions 1..n
+TWINS = {
+    # A -> x ; B(x) -> y1 ; C(x) -> y2 ; D(y1, y2) fails. A was rolled back once before C ran: x_old fed B, x_new fed C.
+    "branch": {
+        "tokens": [
+            ("pw", "T", None, []),  # 1 w
+            ("pjA", "J", "/A/0", [1]),  # 2 job token of A, first execution
+            ("px", "T", None, [1, 2]),  # 3 x_old
+            ("pjA", "J", "/A/0", [1]),  # 4 job token of A, rollback
+            ("px", "T", None, [1, 4]),  # 5 x_new
+            ("pjB", "J", "/B/0", [3]),  # 6
+            ("py1", "T", None, [3, 6]),  # 7 y1
+            ("pjC", "J", "/C/0", [5]),  # 8
+            ("py2", "T", None, [5, 8]),  # 9 y2
+            ("pjD", "J", "/D/0", [7, 9]),  # 10
+        ],
+        "steps": [
+            ("/A-sch", ["pw"], ["pjA"]),
+            ("/A", ["pw", "pjA"], ["px"]),
+            ("/B-sch", ["px"], ["pjB"]),
+            ("/B", ["px", "pjB"], ["py1"]),
+            ("/C-sch", ["px"], ["pjC"]),
+            ("/C", ["px", "pjC"], ["py2"]),
+            ("/D-sch", ["py1", "py2"], ["pjD"]),
+            ("/D", ["py1", "py2", "pjD"], ["out"]),
+        ],
+        "failed": "/D",
+        "inputs": [7, 9, 10],
+    },
+    # A -> x ; B's schedule step was re-run from x_new (job token of B depends on x_new) while B's transfer step
+    # still holds x_old and fails (the situation described in tests/test_recovery.py::test_execute)
+    "stale_input": {
+        "tokens": [
+            ("pw", "T", None, []),  # 1 w
+            ("pjA", "J", "/A/0", [1]),  # 2
+            ("px", "T", None, [1, 2]),  # 3 x_old
+            ("pjA", "J", "/A/0", [1]),  # 4
+            ("px", "T", None, [1, 4]),  # 5 x_new
+            ("pjB", "J", "/B/0", [5]),  # 6
+        ],
+        "steps": [
+            ("/A-sch", ["pw"], ["pjA"]),
+            ("/A", ["pw", "pjA"], ["px"]),
+            ("/B-sch", ["px"], ["pjB"]),
+            ("/B-tr", ["px", "pjB"], ["pxt"]),
+        ],
+        "failed": "/B-tr",
+        "inputs": [3, 6],
+    },
+}
+
+
+def prop_twins(name: str, data_avail, strict: bool) -> bool:
+    """data_avail: symbolic availability of the data tokens in token order (job tokens are never available).
+
+    strict=False (literal reading of the property): every re-loaded job produced a token of the closure that is lost.
+    strict=True (what the merge of equal tokens is for): an available token of the mapper is a root, and a job is
+    re-loaded only if the whole CLASS of equal tokens it produced is lost (nothing available can stand in)."""
+    from lib.detloop import DetLoop
+    from streamflow.recovery.utils import create_graph_mapper
+
+    sc = TWINS[name]
+    toks = sc["tokens"]
+    n = len(toks)
+    port_id, deps_rows, producers, step_id = {}, [], {}, {}
+    for si, (sname, ins, outs) in enumerate(sc["steps"]):
+        step_id[sname] = 200 + si
+        for p in ins + outs:
+            if p not in port_id:
+                port_id[p] = 100 + len(port_id)
+        for p in ins:
+            deps_rows.append((200 + si, port_id[p], INPUT, p))
+        for p in outs:
+            deps_rows.append((200 + si, port_id[p], OUTPUT, p))
+            producers.setdefault(p, []).append(sname)
+    avail, k = [], 0
+    tokens, dependees, key = {}, {}, {}
+    for i in range(1, n + 1):
+        port, kind, jobname, dd = toks[i - 1]
+        dependees[i] = dd
+        if kind == "J":
+            avail.append(False)
+            tokens[i] = {"port": port_id[port], "tag": "0", "type": JOBTOKEN_T, "value": _job_value(jobname, {}), "recoverable": False}
+            key[i] = (port, jobname)
+        else:
+            avail.append(data_avail[k])
+            k += 1
+            tokens[i] = {"port": port_id[port], "tag": "0", "type": TOKEN_T, "value": i, "recoverable": avail[i - 1]}
+            key[i] = (port, "0")
+    db = ProvDB(tokens, {v: p for p, v in port_id.items()}, deps_rows, lambda i, j: i in dependees[j], {v: s for s, v in step_id.items()})
+    ctx = _context(db, {})
+    failed = sc["failed"]
+    failed_job = _job_of(failed)
+    out_ports = [s for s in sc["steps"] if s[0] == failed][0][2]
+    with DetLoop(max_steps=40000) as loop:
+        prov, exc = _build(loop, ctx, db, sc["inputs"])
+        flags, redges, expanded, orphan = ref_closure(sc["inputs"], lambda t: dependees[t], lambda t: avail[t - 1], lambda t: False)
+        if orphan:
+            return exc is not None
+        if exc is not None:
+            return False
+        # the provenance graph itself does not merge anything: exact closure
+        if not _check_graph(prov, None, db, flags, redges):
+            return False
+        mapper = loop.run_until_complete(create_graph_mapper(ctx, prov))
+        got = loop.run_until_complete(mapper.get_step_ids(out_ports))
+        cflags = {}
+        for t in flags:
+            cflags[t] = True if flags[t] else False
+        mflags = {}
+        for t, v in mapper.token_availability.items():
+            mflags[t] = True if v else False
+        got_names = {s for s, sid in step_id.items() if sid in got}
+        # classes of equal tokens met by the traversal; a class is lost iff none of its members is available
+        lost_class: dict = {}
+        for t in cflags:
+            lost_class[key[t]] = lost_class.get(key[t], True) and not cflags[t]
+        # classes needed to rebuild the failed job's inputs: backwards through lost classes only
+        needed = set()
+        work = [key[t] for t in sc["inputs"]]
+        while work:
+            c = work.pop()
+            if c in needed:
+                continue
+            needed.add(c)
+            if lost_class[c]:
+                for t in cflags:
+                    if key[t] == c:
+                        for d in dependees[t]:
+                            work.append(key[d])
+        # the mapper holds tokens of the provenance graph with their availability, one per class, an available one if any
+        seen = set()
+        for t in mapper.dag_tokens.get_nodes():
+            if t not in cflags or mflags.get(t) != cflags[t] or t not in mapper.token_instances:
+                return False
+            if key[t] in seen:
+                return False
+            seen.add(key[t])
+            if not lost_class[key[t]] and not mflags[t]:
+                return False
+            # roots are the available tokens (build_graph docstring; move_token_to_root): nothing is re-produced for them
+            if strict and mflags[t] and len(mapper.dag_tokens.predecessors(t)) > 0:
+                return False
+        # soundness: a job other than the failed one is re-loaded only if data it produced is lost
+        for s in got_names:
+            job = _job_of(s)
+            if job == failed_job:
+                continue
+            hit = False
+            if strict:
+                # ... and no equal available token can stand in for it
+                for c in needed:
+                    if lost_class[c] and c[1] == "0":
+                        for p in producers.get(c[0], []):
+                            if _job_of(p) == job:
+                                hit = True
+            else:
+                for t in cflags:
+                    if not cflags[t] and toks[t - 1][1] == "T":
+                        for p in producers.get(toks[t - 1][0], []):
+                            if _job_of(p) == job:
+                                hit = True
+            if not hit:
+                return False
+        # completeness: the producers of every needed lost class are re-loaded
+        for c in needed:
+            if lost_class[c]:
+                for p in producers.get(c[0], []):
+                    if p != failed and p not in got_names:
+                        return False
+        return True
+
+
+def prop_graph_twins(n: int, twins, inputs, avail, edges) -> bool:
+    """Symbolic DAG as in prop_graph (data tokens only), but tokens twins[0] and twins[1] sit on the same port with
+    the same tag (no edge between them). The mapper must be EXACTLY the class-level closure: one representative per
+    class of equal tokens (an available one if any), available representatives are roots, a lost class hangs on the
+    dependees of all its members, and nothing else is kept."""
+    from lib.detloop import DetLoop
+    from streamflow.recovery.utils import create_graph_mapper
+
+    a, b = twins
+    tokens, ports, key = {}, {}, {}
+    for i in range(1, n + 1):
+        pid = 100 + (a if i == b else i)
+        ports[pid] = "p" + str(a if i == b else i)
+        key[i] = ports[pid]
+        tokens[i] = {"port": pid, "tag": "0", "type": TOKEN_T, "value": i, "recoverable": avail[i - 1]}
+
+    def edge(i, j):
+        return i < j and (i, j) != (a, b) and edges[(i, j)]
+
+    db = ProvDB(tokens, ports, [], edge)
+    ctx = _context(db, {})
+
+    def dependees(t):
+        return [i for i in range(1, t) if edge(i, t)]
+
+    with DetLoop(max_steps=20000) as loop:
+        prov, exc = _build(loop, ctx, db, inputs)
+        flags, redges, expanded, orphan = ref_closure(inputs, dependees, lambda t: avail[t - 1], lambda t: False)
+        if orphan:
+            return exc is not None
+        if exc is not None:
+            return False
+        if not _check_graph(prov, None, db, flags, redges):
+            return False
+        mapper = loop.run_until_complete(create_graph_mapper(ctx, prov))
+        cflags = {}
+        for t in flags:
+            cflags[t] = True if flags[t] else False
+        mflags = {}
+        for t, v in mapper.token_availability.items():
+            mflags[t] = True if v else False
+        with NoTracing():
+            lost = {}
+            for t in cflags:
+                lost[key[t]] = lost.get(key[t], True) and not cflags[t]
+            needed, cedges = set(), set()
+            work = [key[t] for t in inputs]
+            while work:
+                c = work.pop()
+                if c in needed:
+                    continue
+                needed.add(c)
+                if lost[c]:
+                    for t in cflags:
+                        if key[t] == c:
+                            for (d, t2) in redges:
+                                if t2 == t:
+                                    cedges.add((key[d], c))
+                                    work.append(key[d])
+            nodes = mapper.dag_tokens.get_nodes()
+            if set(mapper.token_instances.keys()) != nodes or set(mflags.keys()) != nodes:
+                return False
+            rep = {}
+            for t in nodes:
+                if t not in cflags or mflags[t] != cflags[t] or key[t] in rep:
+                    return False
+                rep[key[t]] = t
+                if mflags[t] == lost[key[t]]:
+                    return False  # representative available <=> the class is not lost
+            if set(rep.keys()) != needed:
+                return False
+            got_edges = set()
+            for t in nodes:
+                for s in mapper.dag_tokens.successors(t):
+                    got_edges.add((key[t], key[s]))
+            if got_edges != cedges:
+                return False
+            want_ports = {c: {rep[c]} for c in needed}
+            return dict(mapper.port_tokens) == want_ports
+
+
 # ---------------------------------------------------------------- obligations
 
 IMPORTS = (
@@ -682,7 +948,7 @@ def _partitions(n, kinds, inputs, family, limit):
     return out
 
 
-def _graph_specs(n, kinds, inputs, limit, absent_edges=(), cond=900, tagname=""):
+def _graph_specs(n, kinds, inputs, limit, absent_edges=(), cond=900, tagname="", twins=None):
     """absent_edges: edges fixed to False (a sub-family of DAGs); everything else symbolic."""
     family = {("e", i, j): False for (i, j) in absent_edges}
     params = []
@@ -705,14 +971,20 @@ def _graph_specs(n, kinds, inputs, limit, absent_edges=(), cond=900, tagname="")
                 ed.append(f"({i}, {j}): e{i}_{j}")
                 nsym += 1
     call = f"prop_graph({n}, {kinds!r}, {list(inputs)!r}, [{', '.join(av)}], {{{', '.join(ed)}}}, [{', '.join(rc)}])"
+    if twins is not None:
+        call = f"prop_graph_twins({n}, {tuple(twins)!r}, {list(inputs)!r}, [{', '.join(av)}], {{{', '.join(ed)}}})"
     cubes = _partitions(n, kinds, inputs, family, limit)
     out = []
     for k, lits in enumerate(cubes):
         pre = [(_vname(v) if val else "not " + _vname(v)) for v, val in lits.items()]
         out.append(
             Spec(
-                name=f"graph_n{n}_{kinds}_in{''.join(str(i) for i in inputs)}{tagname}" + (f"_p{k}" if len(cubes) > 1 else ""),
-                group="GRAPH: the token graph is exactly the backward closure through unavailable tokens",
+                name=("graph" if twins is None else f"twins_graph{twins[0]}{twins[1]}") + f"_n{n}_{kinds}_in{''.join(str(i) for i in inputs)}{tagname}" + (f"_p{k}" if len(cubes) > 1 else ""),
+                group=(
+                    "GRAPH: the token graph is exactly the backward closure through unavailable tokens"
+                    if twins is None
+                    else "TWINS-ROOTS: an available equal token (produced by an earlier rollback) is a root; the producers of its lost twin are not re-run"
+                ),
                 source=mk_source(IMPORTS, ", ".join(params), pre, call),
                 cond=cond,
                 path=120,
@@ -720,9 +992,11 @@ def _graph_specs(n, kinds, inputs, limit, absent_edges=(), cond=900, tagname="")
                 + (f"every DAG without the edges {sorted(absent_edges)}" if absent_edges else "every DAG")
                 + " (edge i->j, i<j, symbolic), symbolic availability, symbolic 'recovering elsewhere' per job token; "
                 + f"failed job inputs = tokens {list(inputs)}"
+                + (f"; tokens {twins[0]} and {twins[1]} are equal (same port, same tag), no edge between them" if twins is not None else "")
                 + (f"; partition {k + 1}/{len(cubes)} (cubes from binary splits, exhaustive): {' and '.join(pre) if pre else 'true'}" if len(cubes) > 1 else ""),
                 symbolic=f"{len(params)} bools",
-                targets=T_GRAPH,
+                targets=T_GRAPH if twins is None else T_GRAPH + T_MERGE,
+                finding_key=None if twins is None else (lambda call: "equal-token-provenance-reattached"),
             )
         )
     return out
@@ -758,6 +1032,7 @@ def specs(tier: str):
         out += _graph_specs(4, "TTTJ", [3, 4], 400)
         out += _graph_specs(5, "TTTTT", [5], 400)
         out += _graph_specs(5, "TTTJT", [5], 400)
+        out += _graph_specs(4, "TTTT", [4], 400, absent_edges=((2, 3),), twins=(2, 3))
     else:
         out += _graph_specs(4, "TTTT", [4], 900, cond=3000)
         out += _graph_specs(4, "TJTT", [3, 4], 900, cond=3000)
@@ -767,6 +1042,32 @@ def specs(tier: str):
         out += _graph_specs(5, "TTJTT", [3, 4, 5], 900, cond=3000)
         out += _graph_specs(6, "TTTTTT", [6], 900, cond=3000)
         out += _graph_specs(6, "TTTJTJ", [5, 6], 900, absent_edges=LAYERED6, cond=3000, tagname="_layered")
+        out += _graph_specs(4, "TTTT", [4], 900, absent_edges=((2, 3),), cond=3000, twins=(2, 3))
+        out += _graph_specs(5, "TTTTT", [5], 900, absent_edges=((2, 3),), cond=3000, twins=(2, 3))
+        out += _graph_specs(5, "TTTTT", [5], 900, absent_edges=((3, 4),), cond=3000, twins=(3, 4))
+        out += _graph_specs(5, "TTTTT", [5], 900, absent_edges=((2, 4),), cond=3000, twins=(2, 4))
+        out += _graph_specs(5, "TTTTT", [4, 5], 900, absent_edges=((3, 4),), cond=3000, twins=(3, 4))
     for name in SHAPES:
         out.append(_steps_spec(name, cond=900 if quick else 3000))
+    t_merge = T_STEPS + T_MERGE
+    for name in TWINS:
+        nd = sum(1 for t in TWINS[name]["tokens"] if t[1] == "T")
+        for strict in (False, True):
+            out.append(
+                Spec(
+                    name=f"twins_{name}" + ("_roots" if strict else ""),
+                    group=(
+                        "TWINS-ROOTS: an available equal token (produced by an earlier rollback) is a root; the producers of its lost twin are not re-run"
+                        if strict
+                        else "TWINS: with equal tokens of an earlier rollback in the graph, every re-loaded job still produced lost data"
+                    ),
+                    source=mk_source(IMPORTS, ", ".join(f"a{i}: bool" for i in range(nd)), [], f"prop_twins({name!r}, [{', '.join(f'a{i}' for i in range(nd))}], {strict})"),
+                    cond=900,
+                    path=120,
+                    bound=f"scenario '{name}': {len(TWINS[name]['tokens'])} tokens, two equal tokens (same port, same tag / same job) from the first execution and from an earlier rollback; symbolic availability of the {nd} data tokens",
+                    symbolic=f"{nd} bools",
+                    targets=t_merge,
+                    finding_key=(lambda call: "equal-token-provenance-reattached") if strict else None,
+                )
+            )
     return out
